@@ -409,7 +409,7 @@ def run_check(prop, tier, seed, replay=None, only_unit=None, only_config=None, s
     lines = []
     for what, vs in known_hits.items():
         lines.append("KNOWN-FINDING: property=%s %s (witnesses this run: %d)" % (prop, what, len(vs)))
-    rdir = os.path.join(VERIF, "replays", prop)
+    rdir = os.path.join(VERIF if REPO == "/repo" else BUILD, "replays", prop)
     seen_keys = {}
     for v in new_viol:
         key = (v["check"], v["sig"])
